@@ -108,12 +108,6 @@ CONTRACTS = [_iter_solutions, _importer_init]
 def register(reg):
     from pyvc.values import MNS, MFn, SV
     import z3
-    sep = SV(STR, z3.StringVal('/'))
-    reg.names['os'] = MNS('os', {'path': MNS('os.path', {
-        'sep': sep,
-        'dirname': MFn('spec', 'os.path.dirname', spec=FnSpec('os.path.dirname', params=[('p', PATH)], ret=PATH,
-                                                              pure=True, assumed=True)),
-    })})
     reg.names['re'] = MNS('re', {'sub': MFn('spec', 're.sub', spec=FnSpec(
         're.sub', params=[('pattern', STR), ('repl', STR), ('s', STR)], ret=STR, pure=True, assumed=True))})
     reg.names['remove_python_path_suffix'] = _remove_suffix_spec
